@@ -342,6 +342,13 @@ class Obj:
                 out["whole"] = str(res)
                 if consume == "both_wl":
                     out["lines"] = "\n".join(str(tables.line_text(C, ln)) for ln in res)
+        elif consume == "lines_after_partial":
+            # the result is first iterated only partly (the consumer breaks off), then iterated again from the start
+            res = self._result(pal, no_color, cc)
+            for n_, _ln in enumerate(res):
+                if n_ >= 1:
+                    break
+            out["lines"] = "\n".join(str(tables.line_text(C, ln)) for ln in res)
         elif consume == "lines_kept":
             # all line objects are collected first and only then turned into text
             kept = list(self._result(pal, no_color, cc))
